@@ -152,6 +152,7 @@ func interpSVG(ts []svgTok) ([]gseg, error) {
 	var out []gseg
 	var cur, start, ctl, qctl hc.P2
 	var hasCtl, hasQ bool
+	afterClose := false
 	i := 0
 	var cmd byte
 	first := true
@@ -188,6 +189,15 @@ func interpSVG(ts []svgTok) ([]gseg, error) {
 			}
 			return hc.P2{X: x, Y: y}
 		}
+		// SVG 1.1 §8.3.3: a drawing command right after a closepath starts a new subpath at the
+		// closed subpath's start point — an implicit moveto
+		if afterClose && up != 'M' && up != 'Z' {
+			m := gseg{}
+			m.Kind, m.P0, m.End = 'M', cur, start
+			out = append(out, m)
+			cur = start
+		}
+		afterClose = up == 'Z'
 		s := gseg{}
 		s.P0 = cur
 		nc, nq := false, false
